@@ -77,6 +77,7 @@ func verifyFunction(P *Program, S *Specs, key string) (res *FuncResult) {
 		c := newCtx(P)
 		c.curFunc = key
 		c.discard = discover
+		c.sweepFilter = ct.SweepKinds
 		x := &Exec{c: c, P: P, S: S, modsets: modsets, discover: discover, maxDepth: 5,
 			inlined: map[string]bool{}, havocked: map[string]bool{}, usedStub: map[string]bool{}, fnAt: map[string]*FnVal{}, heapRegs: heapRegs}
 		if ct.Flags["depth"] != "" {
@@ -95,7 +96,12 @@ func verifyFunction(P *Program, S *Specs, key string) (res *FuncResult) {
 			args = append(args, v)
 		}
 		for _, fv := range fn.FreeVars {
-			f.env[fv] = f.havocValue(f.prefix+"/free:"+fv.Name(), fv.Type(), st, "true")
+			v := f.havocValue(f.prefix+"/free:"+fv.Name(), fv.Type(), st, "true")
+			if _, ok := fv.Type().Underlying().(*types.Pointer); ok && v.T != "" {
+				c.assert("(> " + v.T + " 0)") // a captured variable's cell always exists
+				c.nonzero[v.T] = true
+			}
+			f.env[fv] = v
 		}
 		st.heap[c.ghostVar("$alloc", "Int")] = "0"
 		for gname, srt := range S.GhostVars {
@@ -141,6 +147,30 @@ func verifyFunction(P *Program, S *Specs, key string) (res *FuncResult) {
 					env := f.specEnv(r.st, x.rootOld, nil)
 					env.withResults(fn.Signature, r.vals)
 					env.ghostSets(ct, r.st, "true")
+				}
+				// ghost frame: a ghost variable not listed under `modifies` (or assigned by ghostset) must be unchanged
+				mods := map[string]bool{}
+				for _, gname := range strings.Fields(strings.ReplaceAll(ct.Flags["modifies"], ",", " ")) {
+					mods[gname] = true
+				}
+				for _, gs := range ct.GhostSets {
+					if i := strings.Index(gs.Text, "="); i > 0 {
+						mods[strings.TrimSpace(gs.Text[:i])] = true
+					}
+				}
+				var gnames []string
+				for gname := range S.GhostVars {
+					gnames = append(gnames, gname)
+				}
+				sort.Strings(gnames)
+				for _, gname := range gnames {
+					if mods[gname] || mods["*"] {
+						continue
+					}
+					h := c.ghostVar(gname, x.resolveSort(S.GhostVars[gname]))
+					if cur, old := r.st.get(h), x.rootOld.get(h); cur != old {
+						c.oblige("ghostframe", nil, r.guard, eq(cur, old), ct.Src, "ghost variable "+gname+" is changed but not listed under modifies")
+					}
 				}
 				for _, en := range ct.Ensures {
 					env := f.specEnv(r.st, x.rootOld, nil)
